@@ -38,7 +38,8 @@ TWClose == Ev("wclose") /\ WatchCloses /\ Keep
 TAnnounce == Ev("announce") /\ Announce /\ Keep
 TWithdraw == Ev("withdraw") /\ Withdraws /\ Keep
 TDStart == Ev("dstart") /\ (DaemonStarts \/ DaemonStartsLate) /\ Keep
-TDExit == Ev("dexit") /\ (DaemonExits \/ LateDaemonExits) /\ Keep
+TDExit == Ev("dexit") /\ (DaemonExits \/ LateDaemonExits \/ OrphanExits) /\ Keep
+TOrphan == Ev("orphan") /\ Orphaned /\ Keep
 TStop == Ev("stop") /\ StopFlag /\ Trig /\ UNCHANGED <<faulted, fkind>>
 TCancel == Ev("cancel") /\ Cancel /\ Trig /\ UNCHANGED <<faulted, fkind>>
 TFault == Ev("fault") /\ UNCHANGED vars /\ Trig /\ fkind' = E.kind
@@ -59,13 +60,13 @@ StepBad ==
          [] E.ev = "alive" /\ fkind = "relogin" -> "F14"
          [] E.ev = "alive" /\ tTrig >= 0 /\ E.t - tTrig > Traces[tid].bound -> "lingers_half_alive_after_a_failure_or_a_stop"
          [] OTHER -> "none"
-FamilyBad == IF Family_F29' /\ ~Family_F29 THEN "F29" ELSE "none"
+FamilyBad == IF Family_F29' /\ ~Family_F29 THEN "F29" ELSE IF Family_F5' /\ ~Family_F5 THEN "F5" ELSE "none"
 AllInv == NoApiBeforeStartup /\ ReadyAfterStartup /\ FailedStartupNoApi /\ CleanupLast /\ NothingLingers /\ ReRaises
 FirstBad == IF ~NoApiBeforeStartup THEN "NoApiBeforeStartup" ELSE IF ~ReadyAfterStartup THEN "ReadyAfterStartup"
             ELSE IF ~FailedStartupNoApi THEN "FailedStartupNoApi" ELSE IF ~CleanupLast THEN "CleanupLast"
             ELSE IF ~NothingLingers THEN "NothingLingers" ELSE IF ~ReRaises THEN "ReRaises" ELSE "none"
 TNext == /\ (TSh \/ TCh \/ TReady \/ TApi \/ TWOpen \/ TWClose \/ TAnnounce \/ TWithdraw \/ TDStart \/ TDExit \/ TStop \/ TCancel
-             \/ TFault \/ TReturn \/ THStart \/ THEnd \/ TAlive \/ Silent)
+             \/ TFault \/ TReturn \/ THStart \/ THEnd \/ TAlive \/ TOrphan \/ Silent)
          /\ bad' = (IF bad # "none" THEN bad ELSE IF StepBad # "none" THEN StepBad ELSE IF FirstBad' # "none" THEN FirstBad' ELSE FamilyBad)
 TSpec == TInit /\ [][TNext]_tvars
 
